@@ -623,6 +623,10 @@ func impl(ops []string) []string {
 
 var bigs = []int64{1 << 31, 1<<53 + 1, 1 << 62}
 
+// the ends of the Go int range: timeout counts reach the round from blocks (SetTimeoutCount(b.RoundTimeoutCount)) and from
+// timeout votes of other miners, i.e. from messages
+var ends = []int64{1<<63 - 1, 1<<63 - 2, -1 << 63, -1<<63 + 1, -1 << 62, 1<<62 + 1}
+
 func gen(r *rand.Rand, thorough bool, i int) []string {
 	number := int64(1 + r.Intn(1000))
 	if r.Intn(10) == 0 {
@@ -705,6 +709,9 @@ func gen(r *rand.Rand, thorough bool, i int) []string {
 			if r.Intn(15) == 0 {
 				v = -int64(r.Intn(3))
 			}
+			if r.Intn(14) == 0 {
+				v = ends[r.Intn(len(ends))]
+			}
 			return fmt.Sprintf("settimeout %d", v)
 		}},
 		{3, func() string { return "gettimeout" }},
@@ -728,6 +735,9 @@ func gen(r *rand.Rand, thorough bool, i int) []string {
 			v := int64(r.Intn(9))
 			if r.Intn(20) == 0 {
 				v = bigs[r.Intn(len(bigs))]
+			}
+			if r.Intn(14) == 0 {
+				v = ends[r.Intn(len(ends))]
 			}
 			return fmt.Sprintf("addvote %d %d", v, r.Intn(5))
 		}},
@@ -795,7 +805,8 @@ func parseOut(s string) ob {
 
 // known (recorded) signatures are reported only when nothing else is wrong in the run
 var knownSigs = map[string]bool{
-	"C37:timeout-count-decreases-at-cap":       true,
+	"C37:timeout-count-decreases-at-cap": true,
+	"C37:timeout-count-wraps-at-max-int": true,
 }
 
 // oracle: C37 itself on the answers of the real code, with its own reference for the share set.
@@ -877,6 +888,8 @@ func oracle(ops, outs []string) *corr.Violation {
 		if o.tc < prev.tc {
 			if w[0] == "inctimeout" && cap > 0 && prev.tc > cap && o.tc == cap {
 				mk("timeout-count-decreases-at-cap", fmt.Sprintf("op %d %q: timeout count %d -> %d (timeout_cap %d applied to a count that SetTimeoutCount had put above the cap)", i, op, prev.tc, o.tc, cap))
+			} else if w[0] == "inctimeout" && prev.tc == 1<<63-1 && o.tc == -1<<63 {
+				mk("timeout-count-wraps-at-max-int", fmt.Sprintf("op %d %q: timeout count %d -> %d (tc.count++ on a count that SetTimeoutCount / a timeout vote had put at the largest int)", i, op, prev.tc, o.tc))
 			} else {
 				mk("timeout-count-decreases", fmt.Sprintf("op %d %q: timeout count %d -> %d", i, op, prev.tc, o.tc))
 			}
@@ -1073,6 +1086,10 @@ func main() {
 			// the negation witness of timeout_monotone: the cap is applied to a count set above it
 			{"new 5 1 0", "settimeout 5", "inctimeout 77 0", "gettimeout", "dump"},
 			{"new 0 0 0", "setfinalizing", "resetfinifnot", "finstate", "isfinalized", "dump"},
+			// the ends of the int range for counts that come from messages
+			{"new 5 0 0", "settimeout 9223372036854775807", "inctimeout 77 0", "gettimeout", "inctimeout 78 0", "dump"},
+			{"new 5 3 1", "addvote 9223372036854775807 0", "addvote -9223372036854775808 2", "inctimeout 9 1 2 0", "gettimeout", "settimeout -9223372036854775808", "settimeout 9223372036854775806", "inctimeout 9 1 2 0", "dump"},
+			{"new 9223372036854775807 0 0", "setfinalizing", "resetfinifnot", "isfinalized", "new -9223372036854775808 0 0", "isfinalized", "setseed 9223372036854775807 3", "setseednb -9223372036854775808 2", "getseed", "dump"},
 			{"new 9 0 1", "addshare 1 2", "addshare 1 2", "addshare 2 2", "addshare 3 2", "restart", "getshares", "dump"},
 			// regression guard for repo commit 8870ba0 (setPhase is a CAS loop): the old lost update searched on the real code
 			{"new 5 0 0", stress},
